@@ -38,8 +38,9 @@ def textD (op : String) (a : List Nat) : Option String :=
         | some r => ok (eNats r)
         | none => err "len-mismatch"
       | none => reject
-  | "corruptws" => some <| match runP (do let t ← pGText; let _seed ← pNat; let _iw ← pNat; let _dw ← pNat; let d ← pList (pPair pBool pBool); pure (t, d)) a with
-      | some (t, d) => if d.length != t.length then reject else ok (eNats (corruptWsCl t d).flatten)
+  | "corruptws" => some <| match runP (do let t ← pGText; let _seed ← pNat; let iw ← pNat; let dw ← pNat; let out ← pNats; pure (t, iw, dw, out)) a with
+      -- relational: is the observed output possible for some random stream the probabilities allow?
+      | some (t, iw, dw, out) => if iw == 0 && dw == 0 then reject else if cwAllowed iw dw t out then "accept" else "refuse"
       | none => reject
   | "wstable" => some <| match a with
       -- all White_Space code points in [lo, hi)
